@@ -269,38 +269,51 @@ def c04(ctx):
         rep.fail("C04.R4", "anchor", "ExecStmt::visit_if not found")
     else:
         rep.analysed(vif)
-        ev = [(bi, t) for bi, t in vif.calls() if is_callee(t, "analysis::visit::VisitExpr::visit_expression")]
-        tr = [(bi, t) for bi, t in vif.calls() if is_callee(t, "exec::val::Val::is_truthy")]
-        blocks = [(bi, t) for bi, t in vif.calls() if is_exec_visit_block(t)]
-        ok = len(ev) == 1 and len(tr) == 1 and flows_into(vif, ev[0][0], tr[0][1]["args"][0]) and any(
-            d[0] == "param" and p[:1] == ("condition",) for d, p in origins(vif, ev[0][1]["args"][1]))
-        rep.ob("C04.R4", "decides-by-truthiness", ok, "" if ok else "the branch is not chosen by Val::is_truthy of the evaluated condition", vif.loc(), how="is_truthy(visit_expression(i.condition))")
-        then_s = [bi for bi, t in blocks if any(p[:1] == ("then_block",) for d, p in origins(vif, t["args"][1]))]
-        else_s = [bi for bi, t in blocks if any(p[:1] == ("else_block",) for d, p in origins(vif, t["args"][1]))]
-        ok2 = len(blocks) == 2 and len(then_s) == 1 and len(else_s) == 1
-        rep.ob("C04.R4", "two-branch-sites", ok2, "" if ok2 else "expected one visit_block(then_block) and one visit_block(else_block), found %d/%d of %d" % (len(then_s), len(else_s), len(blocks)), vif.loc(), how="2 sites")
-        if ok and ok2:
-            tl = tr[0][1]["dest"]["l"]
-            sws = []
-            for bi, blk in enumerate(vif.blocks):
-                t = blk["term"]
-                if t["k"] == "switch" and any(d[0] == "call" and d[1] == tr[0][0] for d, _ in origins(vif, t["on"])):
-                    sws.append((bi, t))
-            ok3 = len(sws) == 1
-            why = "" if ok3 else "expected one switch on the truthiness, found %d" % len(sws)
-            if ok3:
-                bi, t = sws[0]
-                zero = [tgt for v, tgt in t["targets"] if v == "0"][0]
-                nz = t["otherwise"]
-                T, E = then_s[0], else_s[0]
-                r_nz, r_z = vif.reachable(nz), vif.reachable(zero)
-                if not (T in r_nz and T not in r_z and E in r_z and E not in r_nz):
-                    ok3, why = False, "then_block / else_block are not confined to the true / false edge of the truthiness test"
-                elif E in vif.reachable_from_succs(T) or T in vif.reachable_from_succs(E):
-                    ok3, why = False, "both branches can run in one execution of the if"
-                elif common.path_to_return_avoiding(vif, [T], start=nz):
-                    ok3, why = False, "on the true edge the then-block can be skipped"
-            rep.ob("C04.R4", "exactly-one-branch", ok3, why, vif.loc(), how="then on nonzero edge only, else on zero edge only, mutually unreachable")
+        # trace table by KIND (whatever idiom selects the branch): the condition is evaluated once; its error ends the statement; a
+        # truthy value runs then_block and nothing else, a falsy one runs else_block if there is one and nothing otherwise; a block's
+        # error is the statement's error
+        from .. import kind as _kind, kindtables as _kt
+        from ..kind import E as _E, c as _kc
+        RES_, PVO_, OPT_ = "std::result::Result", "exec::produce_val::ProduceValOutput", "std::option::Option"
+
+        def m_ve(I_, f, st, t, args, depth):
+            yield _E(RES_, "Ok", _E(PVO_, "ProduceValOutput", ("call", "value_of", (_kind._short(args[1]),)))), None, ((("eval", _kind._short(args[1])), "ok"),)
+            yield _E(RES_, "Err", ("sym", "cerr")), None, ((("eval", _kind._short(args[1])), "err"),)
+
+        def m_truthy(I_, f, st, t, args, depth):
+            yield _kc(True), None, ((("truthy", _kind._short(args[0])), "T"),)
+            yield _kc(False), None, ((("truthy", _kind._short(args[0])), "F"),)
+
+        def m_vb(I_, f, st, t, args, depth):
+            yield _E(RES_, "Ok", ("t", ())), None, ((("block", _kind._short(args[1])), "ok"),)
+            yield _E(RES_, "Err", ("sym", "berr")), None, ((("block", _kind._short(args[1])), "err"),)
+        I4 = _kind.Interp(F, models={"analysis::visit::VisitExpr::visit_expression": m_ve, "exec::val::Val::is_truthy": m_truthy, "analysis::visit::VisitProgram::visit_block": m_vb})
+        IF_ = "frontend::ast::If"
+        rep.exhaustive["C04.R4 visit_if over else present/absent x condition ok/err x truthiness x block ok/err"] = True
+        for els in ("None", "Some"):
+            iv = _E(IF_, "If", ("sym", "condition"), ("sym", "then_block"), _E(OPT_, "None") if els == "None" else _E(OPT_, "Some", ("sym", "else_block")))
+            got = set()
+            for o in I4.run(vif, [("sym", "self"), iv]):
+                tr_ = tuple((c_[0][0], _kt.term(c_[0][1]) if len(c_[0]) > 1 else "", c_[1]) for c_ in o.conds if isinstance(c_[0], tuple) and c_[0] and c_[0][0] in ("eval", "truthy", "block"))
+                got.add((tr_, _kt.term(o.ret)))
+            EV, TR = ("eval", "condition"), ("truthy", "value_of(condition)")
+            want = {
+                ((EV + ("err",),), "Err(cerr)"),
+                ((EV + ("ok",), TR + ("T",), ("block", "then_block", "ok")), "Ok(())"),
+                ((EV + ("ok",), TR + ("T",), ("block", "then_block", "err")), "Err(berr)"),
+            }
+            if els == "None":
+                want.add(((EV + ("ok",), TR + ("F",)), "Ok(())"))
+            else:
+                want.add(((EV + ("ok",), TR + ("F",), ("block", "else_block", "ok")), "Ok(())"))
+                want.add(((EV + ("ok",), TR + ("F",), ("block", "else_block", "err")), "Err(berr)"))
+            ok = got == want and not I4.incomplete
+            why = ""
+            if not ok:
+                extra = sorted(got - want, key=str)[:1]
+                missing = sorted(want - got, key=str)[:1]
+                why = "visit_if (else branch %s): %s%s" % ("present" if els == "Some" else "absent", ("unexpected run %s; " % (extra[0],)) if extra else "", ("missing run %s" % (missing[0],)) if missing else "")
+            rep.ob("C04.R4", "if-trace::else=%s" % els, ok, why, vif.loc(), how="condition once; truthy -> then only; falsy -> else only / nothing; errors end the statement (%d runs)" % len(want))
 
     # ---- R5
     vs = F.fn("analysis::visit::VisitProgram::visit_statement")
